@@ -41,6 +41,23 @@ def generate(rng, tier):
         meta = {"ops": [(o, E.tag_str(t)) for o, t in ops], "final": final, "rej": rej}
         cases.append(Case(["X %s %s %s p" % (sp.s(), ops_line(ops, final), E.cfg_str(eof=0)),
                            "X %s %s %s f" % (sp.s(), ops_line(ops, final), E.cfg_str(eof=1))], "doc", meta))
+        # the same call sequence (flush calls and raw writes sprinkled in) against a destination that fails: an I/O error must not lose
+        # tags that were accepted - whatever a later successful call hands over is what the undisturbed run had handed over by then
+        if rej is None and rng.random() < 0.5:
+            ops2 = []
+            for o in ops:
+                if rng.random() < 0.12:
+                    ops2.append(("F", None))
+                ops2.append(o)
+            script = []
+            for _ in range(rng.randint(1, 6)):
+                script.append(rng.choice(["1", "2", "3", "5", "9", "40", "i", "1000"]))
+            for _ in range(rng.randint(1, 2)):
+                script.insert(rng.randint(0, len(script)), rng.choice(["e7", "e9", "z"]))
+            fin = final or "x"
+            cases.append(Case(["W %s %s" % (sp.s(), ops_line(ops2, fin)),
+                               "W %s %s %s" % (sp.s(), ops_line(ops2, fin), ",".join(script))], "ioerr",
+                              {"ops": [(o, E.tag_str(t) if t else "") for o, t in ops2], "final": fin}))
     return cases
 
 
@@ -61,6 +78,8 @@ def checkpoints(ops):
 
 
 def nontrivial(case, model_out):
+    if case.cls == "ioerr":
+        return "E:io" in model_out[1]
     ops = [x for i, x in enumerate(case.meta["ops"]) if i != case.meta.get("rej")]
     return sum(1 for _, c in checkpoints(ops) if c) >= 2
 
@@ -103,6 +122,8 @@ def visible(ops_so_far, flat_tags):
 def oracle(case, outs):
     if bad_token(outs):
         return "%s: %s" % (case.lines[0][:400], bad_token(outs))
+    if case.cls == "ioerr" or (case.lines[0].startswith("W ") and len(case.lines) == 2):
+        return oracle_ioerr(case, outs)
     ops = case.meta["ops"]
     p = outs[0].split(" | ")
     if len(p) != 3:
@@ -157,4 +178,36 @@ def oracle(case, outs):
             return "after flush/into_inner the output does not parse to the whole document: [%s] expected %s [%s]" % (q[2][:300], " ".join(E.tag_str(t) for t in want)[:300], case.lines[1][:400])
         if counts[-1] != len(dest):
             return "final count"
+    return None
+
+
+def oracle_ioerr(case, outs):
+    """outs[0]: the call sequence against an accepting destination; outs[1]: against a destination that fails somewhere.
+    After every call that returns Ok while no known-size master is open the failing destination must hold exactly what the accepting
+    one held at that point (everything accepted so far); bytes are never retracted; nothing is handed over while a known-size master is
+    open ... unless it was accepted before that master was opened and could not be delivered then."""
+    (t0, d0), (t1, d1) = w_split(outs[0]), w_split(outs[1])
+    if t0 is None or t1 is None or len(t0) != len(t1):
+        return "malformed: %s" % outs
+    if any(not x.startswith("OK@") for x in t0):
+        return None     # not a conformant sequence (cannot happen for generated cases)
+    names = [x.rsplit("@", 1)[0] for x in t1]
+    if any(not (x == "OK" or x.startswith("E:io")) for x in names):
+        return "a destination error changed the verdict of a call: %s | %s   [%s]" % (" ".join(t0), " ".join(t1), case.lines[1][:500])
+    c0 = [int(x.rsplit("@", 1)[1]) for x in t0]
+    c1 = [int(x.rsplit("@", 1)[1]) for x in t1]
+    if any(b < a for a, b in zip(c1, c1[1:])):
+        return "byte count decreased: %s" % c1
+    if not d0.startswith(d1[:len(d0)]) and not d1.startswith(d0[:len(d1)]):
+        pass
+    for k, nm in enumerate(names):
+        if nm == "OK" and c0[k] > (c0[k - 1] if k else 0) or (nm == "OK" and k == len(names) - 1):
+            # the undisturbed run handed bytes over at this call (no known-size master open): so must this one, completely
+            if c1[k] != c0[k]:
+                return ("after an I/O error of the destination a later successful call (op %d) left accepted tags undelivered: the destination holds %d bytes, "
+                        "%d without the error: %s | %s   [%s]" % (k, c1[k], c0[k], " ".join(t0), " ".join(t1), case.lines[1][:500]))
+    if names[-1] == "OK" and d1 != d0:
+        return "final output differs after a destination error: %s | %s   [%s]" % (d0.hex()[:300], d1.hex()[:300], case.lines[1][:500])
+    if not d0.startswith(d1):
+        return "the failing destination holds bytes that are not a prefix of the undisturbed output: %s | %s   [%s]" % (d0.hex()[:300], d1.hex()[:300], case.lines[1][:500])
     return None
